@@ -101,7 +101,19 @@ def run(chk):
         okt = len(tk) == 1 and "flip" in tk[0].args[0].tags and "red:argmax" in tk[0].args[1].tags and alg_degree(tk[0].args[0].a(DT)) == Exp(-1)
         chk.ob("R-ST-AXIS", c + "{frequency axis}", "frequencies (degree -1 in dt) flipped like the rows, indexed by the argmax", okt,
                derived="%d take(s)" % len(tk), loc=tk[0].loc if tk else r.fi.loc())
-        summ[name] = (a0.dtype, "abs" in a0.tags, axv.const if (axv is not None and axv.has_const()) else None, okt)
+        # the frequency axis itself: arange(1, points+1) / (2 * points * dt), points = number of rows
+        from ..poly import Normaliser
+        fdef = [n for n in ast.walk(r.fi.node) if isinstance(n, ast.Assign) and isinstance(n.targets[0], ast.Name) and n.targets[0].id == "freqs"
+                and isinstance(n.value, ast.BinOp)]
+        form = None
+        if len(fdef) == 1:
+            form = Normaliser().poly(fdef[0].value).subst_atoms(lambda a: "dt" if a.endswith(".dt") or a == "dt" else a).canon()
+        chk.ob("R-ST-AXIS", c + "{axis form}", "frequencies = arange(1, points + 1) / (2 * points * dt)", form == "1/2*dt^-1*np.arange(1, 1 + 1*points)*points^-1",
+               derived="%s" % form, loc=r.fi.loc(fdef[0]) if fdef else r.fi.loc())
+        pts = [n for n in ast.walk(r.fi.node) if isinstance(n, ast.Assign) and isinstance(n.targets[0], ast.Name) and n.targets[0].id == "points"]
+        chk.ob("R-ST-AXIS", c + "{points}", "points is the number of rows of the transform", len(pts) == 1 and isinstance(pts[0].value, ast.Call) and
+               ast.unparse(pts[0].value.func) == "len", derived="%s" % (ast.unparse(pts[0].value) if pts else None), loc=r.fi.loc())
+        summ[name] = (a0.dtype, "abs" in a0.tags, axv.const if (axv is not None and axv.has_const()) else None, okt, form)
     if len(summ) == 2:
         a, b = summ.values()
         chk.ob("R-ST-AXIS", "get_max_stockwell_freq~get_max_tifq_vals_freq", "sibling helpers have equal summaries", a == b, derived="%s vs %s" % (a, b))
